@@ -227,9 +227,9 @@ def eigs(f, v0, k=1, which='SR', ncv=10, maxiter=None, tol=1e-13, hermitian=Fals
 
 
     V = [v0 / normv]
-    ncv = min(ncv, v0.size)  # Krylov space cannot exceed the vector space; further vectors would be rounding noise
     V, H, happy = v0.expand_krylov_space(f, 1e-13, ncv, hermitian, V, **kwargs)  # tol=1e-13
     m = len(V) if happy else len(V) - 1
+    m = min(m, max(x.size for x in V))  # Krylov vectors beyond the dimension of the space they live in are rounding noise
     V = V[:m]
 
     T = backend.square_matrix_from_dict(H, m, device=v0.device)
@@ -294,10 +294,10 @@ def lin_solver(f, b, v0, ncv=10, tol=1e-13, pinv_tol=1e-13, hermitian=False, **k
     if normv == 0:
         raise YastnError('Initial vector v0 of lin_solver should be nonzero.')
     Q = [q0 / normv]
-    ncv = min(ncv, q0.size)  # Krylov space cannot exceed the vector space; further vectors would be rounding noise
     Q, H, happy = q0.expand_krylov_space(f, tol, ncv, hermitian, Q, **kwargs)
     m = len(Q) if happy else len(Q) - 1
     H[(m,m-1)] = H[(0,0)] * 0 + tol if happy else H[(m,m-1)]
+    m = min(m, max(x.size for x in Q))  # Krylov vectors beyond the dimension of the space they live in are rounding noise
     Q = Q[:m]
 
     T = backend.square_matrix_from_dict(H, m+1, device = v0.device)
